@@ -19,6 +19,7 @@ import (
 // helper called directly).
 
 func statusOrPanic(r *lint.LintResult) int {
+	tick()
 	if r == nil {
 		return -2
 	}
